@@ -113,6 +113,41 @@ def run(rep, tier, seed, budget):
     r = driver.explore_parallel(lambda e, c: path_wf(e, c, True), 30)
     rep.add_part("E1 same with get_alphabet_from_selfies (set insertion concretises the bodies): up to 2 symbols", r,
                  {"symbols": "0..2", "body_length": "0..%d" % BMAX, "body_characters": ["a", "="]})
+    # collections: every placement of empty / one-symbol / two-symbol strings in a collection of NCOLL strings, given as a
+    # list or as a one-shot iterator ---------------------------------------------------------------
+    NCOLL = 3 if quick else 4
+
+    def path_coll(eng, col):
+        ctx.reset()
+        strs = []
+        for j in range(NCOLL):
+            K = int(fresh_int("k%d" % j, 0, 2))
+            spec = []
+            for i in range(K):
+                if i:
+                    spec.append(["", "."])
+                spec += ["[", ["a", "="], "]"]
+            strs.append(make_slots("c%d_" % j, spec) if spec else "")
+        as_iter = bool(engine.fresh_bool("one_shot_iterator"))
+        try:
+            alpha = sfu.get_alphabet_from_selfies(iter(strs) if as_iter else list(strs))
+        except Exception:  # noqa: well-formed strings must not make the utility raise
+            m = eng.current_model()
+            col.candidate({"prop": "C14", "kind": "tok_utils", "strings": [model_value(m, x) for x in strs], "one_shot_iterator": as_iter})
+            return
+        conc = [str(x) for x in strs]
+        want = set()
+        for x in conc:
+            want |= set(my_split(x))
+        want.discard(".")
+        col.nontrivial((tuple(len(x) for x in conc), len(want)))
+        col.sample({"strings": conc, "alphabet": sorted(str(a) for a in alpha)})
+        if set(str(a) for a in alpha) != want:
+            col.candidate({"prop": "C14", "kind": "tok_utils", "strings": conc, "one_shot_iterator": as_iter})
+
+    r = driver.explore_parallel(path_coll, 25 if quick else 240)
+    rep.add_part("E1 get_alphabet_from_selfies on collections of %d strings (each empty, one or two symbols, optional dot; list or one-shot iterator)" % NCOLL,
+                 r, {"strings": NCOLL, "symbols_per_string": "0..2", "body_characters": ["a", "="], "container": ["list", "iterator"]})
     # encoder outputs are well formed: asserted on C10's accepted paths; a small direct part here
     SM = ["C", "N", "Cl", "[nH]", "=C", "(", ")", "1", ".", "c", "[O-]", "/C"]
 
